@@ -1,4 +1,5 @@
 import SlVerif.Proofs.VerEncToy
+import Mathlib.Data.Nat.Prime.Basic
 /-
   C09.  For every scalar x (including 0, 1, order-1 and scalars whose byte encoding begins or ends with zero bytes), label,
   permitted security parameter and RSA key, on secp256k1 and on edwards25519, the produced proof verifies against
@@ -125,6 +126,13 @@ theorem label_inverse {L n : ℕ} (hn : 0 < n) :
   refine ⟨fun hc => ?_, modInv?_none⟩
   obtain ⟨i, h1, _, h3⟩ := modInv?_spec hn hc
   exact ⟨i, h1, fun m hm => unlabel hm h3⟩
+
+/-- the coprimality hypothesis of `complete` holds for every RSA modulus `n = p·q` whose primes exceed the (non-zero)
+    256-bit label integer — every real key of 1024 bits and more; only a label whose SHA-256 digest is all zero escapes
+    (then every plaintext is 0 and nothing can be decrypted: `InvalidLabel`) -/
+theorem label_coprime_of_rsa_modulus {L p q : ℕ} (hp : p.Prime) (hq : q.Prime) (hL : 0 < L) (hLp : L < p) (hLq : L < q) :
+    Nat.gcd L (p * q) = 1 :=
+  Nat.Coprime.mul_right ((Nat.coprime_of_lt_prime hL.ne' hLp hp).symm) ((Nat.coprime_of_lt_prime hL.ne' hLq hq).symm)
 
 /-- `decode_scalar(s.to_repr()) = Some(s)` on both curves, for every reduced scalar (incl. 0, 1, order-1, zero bytes at
     either end of the repr) -/
